@@ -122,6 +122,20 @@ def rule_policies(ctx: Ctx) -> None:
                                 src = [s2.value for s2 in walk_stmts(m.node.body) if isinstance(s2, ast.Assign) and path_of(s2.targets[0]) == capn]
                                 capok = len(src) == 1 and "self._current_rate * self._window_size" in unparse(src[0])
                         ctx.ob("C10-1", "G6", m, st, ok and capok, f"{c.name}: the bucket level is only ever refilled as min(<capacity>, level + elapsed × rate)")
+            # ... and the clamp is unconditional: whenever a refill advances its timestamp (other than initialising it), the
+            # clamped write has happened on that path (it is also what pulls the level down after the adaptive rate shrinks)
+            for m in c.methods.values():
+                stamps = [st for st in walk_stmts(m.node.body) if isinstance(st, ast.Assign) and path_of(st.targets[0]) == "self._last_refill_time" and m.name != "__init__"]
+                if not stamps:
+                    continue
+                fm = ctx.flow(m)
+                clamp = [st for st in walk_stmts(m.node.body) if isinstance(st, ast.Assign) and path_of(st.targets[0]) == "self._tokens" and isinstance(st.value, ast.Call) and path_of(st.value.func) == "min"]
+                for st in stamps:
+                    sn = node_of(fm.cfg, st)
+                    if ("is", "self._last_refill_time", "None") in {f[:3] for f in fm.facts_at(sn)}:
+                        continue
+                    unclamped = always_before(ctx, m, lambda x: any(x.ast is cst for cst in clamp), lambda x: x is sn)
+                    ctx.ob("C10-1", "G6", m, st, bool(clamp) and not unclamped, f"{c.name}.{m.name}: every refill that advances the refill time has clamped the level to the (current) capacity on the same path")
         if c.name == "AdaptivePolicy":
             for m in c.methods.values():
                 if m.name == "__init__":
@@ -283,6 +297,12 @@ def rule_entities(ctx: Ctx) -> None:
                     kinds["forward-oldest"] += 1
                     if pops != 1 or len(pushes) != 1 or [path_of(a) for a in pushes[0].args] != [evp] or q != 1 or d:
                         bad.append(f"[{desc}] forwards a buffered request: pop x{pops}, push x{len(pushes)}, queued += {q}, dropped += {d} (want 1/1/1/0)")
+                    else:
+                        # the unchecked push cannot be refused only because the pop has just freed a slot of the same buffer
+                        order = [("pop" if path_of(c.func) == "self._queue.pop" else "push") for n in p.nodes for e in own_exprs(n) for c in walk_scope(e)
+                                 if isinstance(c, ast.Call) and path_of(c.func) in ("self._queue.pop", "self._queue.push")]
+                        if order != ["pop", "push"] and push_ok is not True:
+                            bad.append(f"[{desc}] buffers the arrival with an unchecked push *before* popping the oldest request: a full buffer refuses it and the request is lost")
             elif pushes and push_ok is True:
                 kinds["queue"] += 1
                 if q != 1 or d or len(pushes) != 1:
@@ -393,6 +413,10 @@ def run(ctx: Ctx) -> None:
 
 
 MUTANTS = [
+    ("adaptive-clamp-only-when-below-cap", POL, "        max_tokens = max(1.0, self._current_rate * self._window_size)\n        self._tokens = min(max_tokens, self._tokens + elapsed * self._current_rate)",
+     "        max_tokens = max(1.0, self._current_rate * self._window_size)\n        if self._tokens < max_tokens:\n            self._tokens = min(max_tokens, self._tokens + elapsed * self._current_rate)", "C10-1"),
+    ("rle-unchecked-push-before-pop", RLE, "            oldest = self._queue.pop()\n            if oldest is None:\n                raise RuntimeError(\"Queue reported non-empty but pop() returned None\")\n            self._queue.push(event)\n            self._queued += 1\n            return self._forward(oldest, now)",
+     "            self._queue.push(event)\n            self._queued += 1\n            oldest = self._queue.pop()\n            if oldest is None:\n                raise RuntimeError(\"Queue reported non-empty but pop() returned None\")\n            return self._forward(oldest, now)", "C10-3"),
     ("token-bucket-admits-fraction", POL, "    def try_acquire(self, now: Instant) -> bool:\n        self._refill(now)\n        if self._tokens >= 1.0:\n            self._tokens -= 1.0\n            return True\n        return False\n\n    def time_until_available(self, now: Instant) -> Duration:\n        self._refill(now)\n        if self._tokens >= 1.0:\n            return Duration.ZERO\n        deficit = 1.0 - self._tokens\n        wait = Duration.from_seconds(deficit / self._refill_rate)",
      "    def try_acquire(self, now: Instant) -> bool:\n        self._refill(now)\n        if self._tokens > 0.0:\n            self._tokens -= 1.0\n            return True\n        return False\n\n    def time_until_available(self, now: Instant) -> Duration:\n        self._refill(now)\n        if self._tokens >= 1.0:\n            return Duration.ZERO\n        deficit = 1.0 - self._tokens\n        wait = Duration.from_seconds(deficit / self._refill_rate)", "C10-1"),
     ("token-bucket-refill-unbounded", POL, "        self._tokens = min(self._capacity, self._tokens + elapsed * self._refill_rate)", "        self._tokens = self._tokens + elapsed * self._refill_rate", "C10-1"),
